@@ -29,7 +29,7 @@ def allEq (l : List String) : Bool := match l with | [] => true | x :: xs => xs.
 /-- `addr`: the same repository addressed in several ways, with replace refs, grafts, shallow marker -/
 def addrEngine : Engine := fun inp obs =>
   match inp, obs with
-  | [repoS, _t, refsS, _g, rootsS, style, shallow], ["ran", codesS, hashesS, numS, witS, wtHead] =>
+  | [repoS, _t, refsS, _g, rootsS, style, shallow], ["ran", codesS, hashesS, numS, witS, wtHead, rootReal] =>
     match parseRepo repoS, parseIdxList rootsS "." with
     | some r, some roots =>
       let codes := codesS.splitOn ","
@@ -41,6 +41,7 @@ def addrEngine : Engine := fun inp obs =>
       else if codes.any (· != "0") then .viol "C13" s!"git-sizer failed in some addressing mode: exit codes {codes}"
       else if !allEq hashes then .viol "C13" s!"the report differs between addressing modes: {hashes}"
       else if wtHead == "0" then .viol "C13" "`git-sizer HEAD` in a linked worktree does not measure that worktree's HEAD"
+      else if rootReal == "0" then .viol "C13" "a ROOT argument (X^{tree} / X^ of a commit with a replacement or graft) was resolved through the replacement or the graft"
       else
         let nrefs := if refsS == "-" then 0 else (refsS.splitOn ",").length
         let D := reachList r roots
